@@ -122,3 +122,35 @@ def rogue_converter_sub(chk, rng, w, count="worlds with a deviating converter "
         if (obs or {}).get("rogue", {}).get("k") != "E":
             chk.count(count)
     return steps, judge
+
+
+def computed(rng, w, x, sym, p=0.25):
+    """The quantity x sym (exactly) as the RESULT of a value-changing
+    operation on other quantities -- a conversion from another unit, a
+    division by 3, a sum, a difference -- or None if this case stays with
+    the constructor.  Only for units without quantum (there every one of
+    these is exact); amounts are then often held as fractions with large
+    terms, which is how operands look in real programs."""
+    if rng.random() >= p or w.quantum_of(sym) is not None:
+        return None
+    x = F(x)
+    u = w.units[sym]
+    k = rng.choice(["convert", "div", "add", "sub", "mul"])
+    if k == "convert":
+        others = [o.sym for o in w.units_of(u.tname)
+                  if o.sym != sym and w.convertible(sym, o.sym) and
+                  w.quantum_of(o.sym) is None]
+        if not others:
+            k = "div"
+        else:
+            s2 = rng.choice(others)
+            return ["m", Q(num(x * u.factor / w.units[s2].factor), s2),
+                    "convert", [U(sym)], {}]
+    if k == "div":
+        return OP("/", Q(num(3 * x), sym), ["i", 3])
+    if k == "mul":
+        return OP("*", Q(num(x / 7), sym), ["i", 7])
+    y = rand_fraction(rng, small=True)
+    if k == "add":
+        return OP("+", Q(num(x - y), sym), Q(num(y), sym))
+    return OP("-", Q(num(x + y), sym), Q(num(y), sym))
